@@ -8,10 +8,10 @@ use libfuzzer_sys::fuzz_target;
 fuzz_target!(|data: &[u8]| {
     let mut u = Unstructured::new(data);
     let Ok(t) = u.arbitrary::<(Vec<u8>, u8, Vec<(u8, u8, u8)>)>() else { return };
-    let syms: Vec<usize> = t.0.into_iter().take(13).map(|x| (x % 8) as usize).collect();
+    let syms: Vec<usize> = t.0.into_iter().take(36).map(|x| (x % 8) as usize).collect();
     let ops: Vec<(usize, usize, usize)> = t.2.into_iter().take(12).map(|(a, b, c)| ((a % 18) as usize, (b % 11) as usize, (c % 8) as usize)).collect();
     if ops.is_empty() { return; }
-    let c = eng::fold_case(&(syms, (t.1 % 4) as usize, ops));
+    let c = eng::fold_case(&(syms, (t.1 % 6) as usize, ops));
     let mut w = eng::Walk::default();
     if let Err(e) = eng::run_case(&c, true, &mut w) { panic!("C13 violation: {e}"); }
     let mut w = eng::Walk::default();
